@@ -375,6 +375,9 @@ def run(ck):
                             "modifies is initialised on every path returning LZMA_OK")
     reinit.check_init_consistency(ck, prog, "C06-INITCONS", skip_files=("stream_encoder_mt.c", "stream_decoder_mt.c"))
     ck.floor("C06-INITCONS", 40)
+    ck.rule("C06-READFIRST", "what the coding function can read before storing to it is stored by the init function on every path returning LZMA_OK")
+    reinit.check_read_first(ck, prog, "C06-READFIRST")
+    ck.floor("C06-READFIRST", 90)
     ck.rule("C06-INITONCE", "a nested coder initialised in a state of a resumable function is not initialised again on "
                             "re-entry: coder->sequence is advanced before any non-fatal return")
     reinit.check_init_once(ck, prog, "C06-INITONCE")
